@@ -157,6 +157,45 @@ func safelyFindable(y []byte, slices [][]byte) uint8 {
 	return count
 }
 
+// safelyFindableAny is safelyFindable over several surviving files: a slice
+// counts when it stands alone (as above) in at least one of them, under
+// whatever name that content now lives.
+func safelyFindableAny(files [][]byte, slices [][]byte) uint8 {
+	found := make([]uint8, len(slices))
+	for _, y := range files {
+		n := len(y)
+		occ := make([][]uint8, len(slices))
+		hit := make([]uint8, n)
+		for k, sl := range slices {
+			occ[k] = make([]uint8, n)
+			for i := 0; i < n; i++ {
+				end := i + scnSlice
+				if end > n {
+					end = n
+				}
+				occ[k][i] = b2u(bytesEqual(padTo(y[i:end], scnSlice), sl))
+				hit[i] |= occ[k][i]
+			}
+		}
+		for k := range slices {
+			for j := 0; j < n; j++ {
+				alone := occ[k][j]
+				for i := j - scnSlice + 1; i < j+scnSlice; i++ {
+					if i >= 0 && i < n && i != j {
+						alone &= 1 ^ hit[i]
+					}
+				}
+				found[k] |= alone
+			}
+		}
+	}
+	var count uint8
+	for _, f := range found {
+		count += f
+	}
+	return count
+}
+
 func currentFiles(s *scenario) [][]byte {
 	var out [][]byte
 	for _, p := range s.paths {
@@ -213,6 +252,11 @@ func checkVerify(s *scenario, blocksPresent int) (VerifyResult, error) {
 		}
 	}
 	rt.Assert(c.UsableDataShardCount >= intactSlices, "every slice of an undamaged file is counted usable")
+	var allSlices [][]byte
+	for _, x := range s.orig {
+		allSlices = append(allSlices, slicesOf(x)...)
+	}
+	rt.Assert(c.UsableDataShardCount >= int(safelyFindableAny(cur, allSlices)), "every slice that survives at a non-overlapped offset in some protected file is counted usable")
 	rt.Assert(c.UsableParityShardCount == blocksPresent, "usable recovery blocks == intact recovery blocks beside the index")
 	rt.Assert(c.RepairPossible() == (c.UnusableDataShardCount <= c.UsableParityShardCount), "repair possible iff unusable slices <= usable recovery blocks")
 	if !c.RepairNeeded() {
